@@ -77,7 +77,10 @@ def check_toplevel(ctx, led, rule="C19.toplevel"):
                     continue
                 led.violation(rule, ck, where, "module-level store into %s" % norm_src(targets[0]))
                 continue
-            led.violation(rule, ck, where, "module-level statement executes at import time: %s" % type(st).__name__)
+            why = pure_initialisation(ctx, m, st)
+            if why is None:
+                continue  # a loop / if / del that only builds this module's own tables from pure expressions
+            led.violation(rule, ck, where, "module-level statement executes at import time: %s (%s)" % (type(st).__name__, why))
         for c in m.classes.values():
             for st in c.node.body:
                 n += 1
@@ -106,6 +109,69 @@ def check_toplevel(ctx, led, rule="C19.toplevel"):
                     continue
                 led.violation(rule, ck, m.where(st), "class body statement %s" % type(st).__name__)
     return n
+
+
+def pure_initialisation(ctx, m, st, depth=0):
+    """None when the module-level compound statement only initialises objects of this very module
+    with pure expressions (for / if / del / stores into own tables / in-place methods on own
+    tables); otherwise a description of what else it does."""
+    own = set(m.assigns)
+    if depth > 4:
+        return "nesting too deep"
+
+    def root(t):
+        b = t
+        while isinstance(b, (ast.Subscript, ast.Attribute)):
+            b = b.value
+        return b.id if isinstance(b, ast.Name) else None
+
+    def loop_names(s):
+        out = set()
+        for n in ast.walk(s):
+            if isinstance(n, ast.Name) and isinstance(n.ctx, (ast.Store, ast.Del)):
+                out.add(n.id)
+        return out
+
+    if isinstance(st, ast.Delete):
+        if all(isinstance(t, ast.Name) for t in st.targets):
+            return None
+        return "del of a table entry"
+    if isinstance(st, ast.Pass):
+        return None
+    if isinstance(st, (ast.For, ast.If, ast.While)):
+        if isinstance(st, ast.While):
+            return "while loop"
+        head = st.iter if isinstance(st, ast.For) else st.test
+        w = impure(ctx, m, head)
+        if w is not None:
+            return w
+        for sub in list(st.body) + list(st.orelse):
+            w = pure_initialisation(ctx, m, sub, depth + 1)
+            if w is not None:
+                return w
+        return None
+    if isinstance(st, (ast.Assign, ast.AugAssign, ast.AnnAssign)):
+        targets = st.targets if isinstance(st, ast.Assign) else [st.target]
+        locals_ = own | loop_names(m.tree)
+        for t in targets:
+            for x in ([t] if not isinstance(t, (ast.Tuple, ast.List)) else t.elts):
+                if root(x) not in locals_:
+                    return "store into %s" % norm_src(x)
+        if st.value is not None:
+            return impure(ctx, m, st.value)
+        return None
+    if isinstance(st, ast.Expr) and isinstance(st.value, ast.Call) and isinstance(st.value.func, ast.Attribute):
+        c = st.value
+        if root(c.func.value) in (own | loop_names(m.tree)) and c.func.attr in ("update", "append", "extend", "setdefault", "insert", "sort", "reverse", "move_to_end"):
+            for a in list(c.args) + [k.value for k in c.keywords]:
+                w = impure(ctx, m, a)
+                if w is not None:
+                    return w
+            return None
+        return "call of %s" % norm_src(c.func)
+    if isinstance(st, ast.Expr) and isinstance(st.value, ast.Constant):
+        return None
+    return type(st).__name__
 
 
 def class_attr_writer(ctx, c, name):
